@@ -798,6 +798,7 @@ class ArrayOf(DataType):
         return ArrayOf(self.members.copy(), self.minlen, self.maxlen)
 
     def checkProperties(self):
+        self.members.checkProperties()  # properties of members may be set through ArrayOf.setProperty
         self.default = [self.members.default] * self.minlen
         super().checkProperties()
 
